@@ -264,9 +264,21 @@ def run_part(ctx, pq, kind, seed, part, violate):
             if mcls in PRINCIPAL:
                 st, res = attempt("sqrtm", [m])
                 if handle("sqrtm", mname, mcls, st, res):
-                    ok, dd = _close(scipy.linalg.sqrtm(m), res)
-                    if not ok:
-                        report("sqrtm", mname, mcls, "value", dd)
+                    ev0 = np.linalg.eigvals(m)
+                    if np.min(np.pi - np.abs(np.angle(ev0))) <= 0.3:
+                        # an eigenvalue on (or next to) the negative real axis: the principal branch is not defined
+                        # there (seed-dependent for the complex-form symplectic 2x2: its eigenvalues are real when
+                        # |A| > |Im P|) and implementations legitimately return different square roots -- only the
+                        # defining equation X @ X = M is demanded
+                        ctx.count("linalg_sqrtm_on_branch_cut_square_only")
+                        res_ = np.asarray(res)
+                        ok, dd = _close(m, res_ @ res_)
+                        if not ok:
+                            report("sqrtm", mname, mcls, "square", dd)
+                    else:
+                        ok, dd = _close(scipy.linalg.sqrtm(m), res)
+                        if not ok:
+                            report("sqrtm", mname, mcls, "value", dd)
             eig_ok = not (kind in ("tf", "tffn") and not diagonalisable(m))
             if not eig_ok:
                 ctx.count("linalg_skipped_not_diagonalisable_for_eig_based_shim")
